@@ -162,7 +162,9 @@ var spdxIDPool = []string{"a", "b", "c", "pkg-1.0", "lib.so", "A-b.C", "n1", "n1
 	// identifiers with the prefix of generated references but not their shape (no "--", no flags)
 	// ("protobom-auto" itself is erased by the CycloneDX writer and re-generated by its reader with
 	// a number that depends on the writer's map order: only stream ser uses it)
-	"protobom-v0.4.1", "protobom-"}
+	"protobom-v0.4.1", "protobom-",
+	// identifiers that are words SPDX reserves for the other end of a relationship
+	"NONE", "NOASSERTION"}
 var textPool = []string{"x", "Y z", "v1.2.3", "é ü 漢字", "a:b+c", "tab\tsep", "q\"uote", "back\\slash", "<html>&amp;", "line\nbreak", "  padded  ", "\u2028ls", "🙂",
 	// values that look like the placeholders some format versions write for a missing version
 	"0.0.0", "0"}
@@ -649,8 +651,16 @@ func spdxCompleteness(d M, raw []byte) []string {
 		a, _ := em["spdxElementId"].(string)
 		b, _ := em["relatedSpdxElement"].(string)
 		t, _ := em["relationshipType"].(string)
-		rels[[3]string{strip(a), t, strip(b)}] = true
-		for _, x := range []string{strip(a), strip(b)} {
+		// an endpoint is a reference (SPDXRef-...) or one of SPDX's special values (NONE,
+		// NOASSERTION): the special value NONE is not the element SPDXRef-NONE
+		ref := func(s string) string {
+			if strings.HasPrefix(s, "SPDXRef-") {
+				return strip(s)
+			}
+			return "(special value " + s + ")"
+		}
+		rels[[3]string{ref(a), t, ref(b)}] = true
+		for _, x := range []string{ref(a), ref(b)} {
 			if x != "DOCUMENT" && emitted[x] == 0 {
 				add("relationship %s %s %s refers to an element that was not emitted", a, t, b)
 			}
